@@ -28,7 +28,8 @@ def step (_ : Unit) (ws : List String) : Unit × String :=
     let mode := match kv rest "mode" with | "d" => Mode.decompress | "t" => Mode.test | _ => Mode.compress
     let out := kv rest "out"
     let inv : Inv := { mode := mode, files := lst (kv rest "files"), force := kv rest "force" == "1", rm := kv rest "rm" == "1",
-                       toStdout := kv rest "stdout" == "1", outName := if out == "" || out == "-" then none else some out }
+                       toStdout := kv rest "stdout" == "1", outName := if out == "" || out == "-" then none else some out,
+                       level := (if kv rest "level" == "" then 1 else (kv rest "level").toNat!), confirm := kv rest "confirm" == "1" }
     let ex := lst (kv rest "exists"); let miss := lst (kv rest "missing"); let bad := lst (kv rest "bad")
     let env : Env := { dstExists := fun p => ex.contains p, srcExists := fun p => !miss.contains p, codecOk := fun p => !bad.contains p }
     ((), " ".intercalate ((program inv env).map opStr))
@@ -39,6 +40,20 @@ def step (_ : Unit) (ws : List String) : Unit × String :=
     let ops := r.ops.map (fun o => match o with | .seek n => s!"s{n}" | .write n => s!"w{n}")
     let sum := r.content.foldl (fun a b => (a * 31 + b.toNat) % 4294967291) 7
     ((), s!"size={r.content.length} sum={sum} ops={",".intercalate ops}")
+  | "sparsebig" :: items =>
+    -- sparsebig <hex buffer | - | z<size>x<count>> ... : the same with run-length coded zero buffers (runs of many GiB), on the length view
+    -- of the writer (Model/Sparse.lean LSt; Props/C19.lean sparse_big: equal to the byte-level writer on the expanded buffers)
+    let its : List ZstdVerif.Sparse.Item := items.map (fun h =>
+      if h == "-" then .data []
+      else if h.startsWith "z" then
+        match ((h.drop 1).toString).splitOn "x" with
+        | [a, b] => .zeros a.toNat! b.toNat!
+        | [a] => .zeros a.toNat! 1
+        | _ => .data []
+      else .data (ByteArray.ofHex h).toList)
+    let r := ZstdVerif.Sparse.writeAllL its
+    let ops := r.ops.map (fun o => match o with | .seek n => s!"s{n}" | .write n => s!"w{n}")
+    ((), s!"size={r.size} ops={",".intercalate ops}")
   | _ => ((), "bad-op")
 
 def main : IO Unit := do
